@@ -737,3 +737,34 @@ package actor
 //@   modifies gmap(told), gmap(toldn), gmap(tells)
 //@   ensures  gcount(told, ref, kKill(!poison)) == old(gcount(told, ref, kKill(!poison))) + 1
 //@   ensures  forall r vivid.ActorRef, k mathint :: (r != ref || k != kKill(!poison)) ==> gcount(told, r, k) == old(gcount(told, r, k))
+//@   ensures  gcount(toldn, kKill(!poison)) == old(gcount(toldn, kKill(!poison))) + 1
+//@   ensures  forall k mathint :: k != kKill(!poison) ==> gcount(toldn, k) == old(gcount(toldn, k))
+
+// ---------------------------------------------------------------------------------------------
+// C05: spawning. NewContext builds the child context and runs the prelaunch hook (trusted: user code and the
+// option chain); registered(ctx) counts successful registrations.
+//@ ghost registered(ptr)
+//@ func NewContext
+//@   trusted
+//@   ensures result.1 == nil ==> result.0 != nil && fresh(result.0) && result.0.ref != nil && fresh(result.0.ref) && result.0.parent == parent && result.0.system == system
+//@   ensures result.1 != nil ==> result.0 == nil
+//@ func (*System).appendActorContext
+//@   trusted
+//@   ghostinc registered(ctx) when !result
+// ActorOf: a dead parent spawns nothing; a failing prelaunch or a name that is taken returns an error and the
+// would-be actor receives NOTHING (nobody is told anything, the child table is untouched); on success the child is
+// registered once, entered in the child table under its path, and is told exactly one OnLaunch as a system message -
+// BEFORE the kill it gets when its parent is already stopping - and nobody else is told anything
+//@ func (*Context).ActorOf
+//@   callspec Kill requires gcount(toldn, 2 * tagof("*vivid.OnLaunch") + 1) == old(gcount(toldn, 2 * tagof("*vivid.OnLaunch") + 1)) + 1
+//@   requires ctxwf(c)
+//@   modifies c.children, c.children[*], gmap(told), gmap(toldn), gmap(tells), gmap(published), gmap(registered)
+//@   ensures  old(c.state) == 2 ==> result.1 != nil
+//@   ensures  result.1 != nil ==> result.0 == nil && (forall r vivid.ActorRef, k mathint :: gcount(told, r, k) == old(gcount(told, r, k))) &&
+//@            c.children == old(c.children) && forall p string :: (p in c.children <==> old(p in c.children))
+//@   ensures  result.1 == nil ==> result.0 != nil && gcount(told, result.0, 2 * tagof("*vivid.OnLaunch") + 1) == old(gcount(told, result.0, 2 * tagof("*vivid.OnLaunch") + 1)) + 1 &&
+//@            gcount(toldn, 2 * tagof("*vivid.OnLaunch") + 1) == old(gcount(toldn, 2 * tagof("*vivid.OnLaunch") + 1)) + 1
+//@   ensures  result.1 == nil ==> forall r vivid.ActorRef, k mathint :: r != result.0 ==> gcount(told, r, k) == old(gcount(told, r, k))
+//@   ensures  result.1 == nil ==> forall k mathint :: k != 2 * tagof("*vivid.OnLaunch") + 1 && k != kKill(true) ==> gcount(told, result.0, k) == old(gcount(told, result.0, k))
+//@   ensures  result.1 == nil && old(c.state) != 1 ==> gcount(told, result.0, kKill(true)) == old(gcount(told, result.0, kKill(true)))
+//@   ensures  result.1 == nil ==> refPath(result.0) in c.children && c.children[refPath(result.0)] == result.0
